@@ -2,13 +2,13 @@ INIT Init
 NEXT Next
 CONSTANTS
   SpeciesSeq <- Species5
-  Catalog <- Cat12
+  Catalog <- Cat6
   Comp <- NoComp
   UseComp = FALSE
   MaxRx = 2
   AllowDup = FALSE
-  Modes <- Modes_Two
-  MaxSys = 2
+  Modes <- Modes_One
+  MaxSys = 1
   MaxOps = 3
   Preds <- Preds_Few
   QueryKinds <- Q_None
